@@ -29,7 +29,8 @@ import (
 //
 //	auth <www> <e>                  HttpServer with SetAuthenticate(returns e), configured WWW-Authenticate <www>,
 //	                                POST /m through ServeHTTP -> status=503 retry=<n> | status=401 reason=<x> cache=<x> www=<x|-> | status=500 | pass
-//	chain <www> <o1> / <o2> / …     ChainAuthenticate(o1…) (oi = OK | <e>): called directly (trace, identity of what it returns),
+//	authc <www> <e>                 same, but the authenticator returns a NON-NIL context together with the error
+//	chain <www> <o1> / <o2> / …     ChainAuthenticate(o1…) (oi = OK | <e> | C <e>; C = non-nil context AND error): called directly (trace, identity of what it returns),
 //	                                then installed on the server -> calls=<k> ret=ok:<i>|err:<i>|exhausted <response|pass>
 //
 // The model sees the variant tags normalised (Oe/Oi/Od -> O, Wc -> W, Jf/Jc -> J): it claims they are indistinguishable.
@@ -38,10 +39,10 @@ func init() {
 	slog.SetDefault(slog.New(slog.NewTextHandler(io.Discard, nil)))
 	Register(&Prop{
 		ID: "C23",
-		Rule: "random error trees (depth <= 6; every AuthReason constant, empty and out-of-set reasons; RpcError types incl. near-misses; " +
+		Rule: "random error trees (depth <= 6, plus wrap towers of depth 0..9/16/33/100 over every error kind, also below a join; every AuthReason constant, empty and out-of-set reasons; RpcError types incl. near-misses; " +
 			"RetryAfter <=0/small/huge; fmt/%w, errors.Join, multi-%w and custom Unwrap wrappers; empty joins) through the real ServeHTTP; " +
-			"chains of 1..7 authenticators with arbitrary outcomes called directly (trace + identity) and over HTTP; thorough adds every tree of " +
-			"depth <= 2 over a 9-leaf alphabet and every chain of length <= 4 over 6 outcomes. non-trivial = has at least one auth/chain line whose " +
+			"authenticators and chain links returning (nil, err), (ctx, nil) and (non-nil ctx, err); chains of 1..7 authenticators with arbitrary outcomes called directly (trace + identity) and over HTTP; thorough adds every tree of " +
+			"depth <= 2 over a 9-leaf alphabet and every chain of length <= 4 over 8 outcomes. non-trivial = has at least one auth/chain line whose " +
 			"error value contains a wrapper or a chain of >= 2 authenticators; distinct = distinct scripts",
 		Gen:  c23Gen,
 		Exec: c23Exec,
@@ -214,14 +215,58 @@ func c23Tree(r *Rng, depth int) []string {
 	return out
 }
 
+var c23Depths = []int{0, 1, 2, 3, 4, 5, 6, 7, 8, 9, 16, 33, 100}
+
+// c23Tower: a leaf of any kind under d single-Unwrap wrappers (fmt and custom mixed), optionally
+// with a join inserted somewhere in the tower (an AuthUnavailableError must still be found below it,
+// an AuthFailure must not).
+func c23Tower(r *Rng, d int) []string {
+	var out []string
+	joinAt := -1
+	if r.Chance(30) {
+		joinAt = r.Intn(d + 1)
+	}
+	for i := 0; i <= d; i++ {
+		if i == joinAt {
+			switch r.Intn(3) {
+			case 0:
+				out = append(out, "J1")
+			case 1:
+				out = append(out, "J2", "O")
+			default:
+				out = append(out, "Jc3", "O", Pick(r, []string{"O", "R:" + XS("ValueError") + ":x"}))
+				// third element is the rest of the tower: found last in depth-first order
+			}
+		}
+		if i < d {
+			out = append(out, Pick(r, []string{"W", "W", "Wc"}))
+		}
+	}
+	return append(out, c23Leaf(r))
+}
+
 func c23Gen(g *Gen) {
 	r := g.Rng
+	// wrap towers: every depth of the list, several leaves each
+	for rep, n := 0, g.N(4, 40); rep < n; rep++ {
+		for _, d := range c23Depths {
+			www := XS(Pick(r, c23WWW))
+			lines := []string{
+				Pick(r, []string{"auth", "auth", "authc"}) + " " + www + " " + strings.Join(c23Tower(r, d), " "),
+				"auth " + www + " " + strings.Repeat("W ", d) + "F:" + XS(Pick(r, c23Reasons)) + ":x",
+				"auth " + www + " " + strings.Repeat("Wc ", d) + "U" + strconv.Itoa(Pick(r, c23Retry)),
+				"auth " + www + " " + strings.Repeat("W ", d) + "R:" + XS(Pick(r, c23Types)) + ":x",
+				"chain " + www + " R:" + XS("ValueError") + ":x / " + Pick(r, []string{"", "C "}) + strings.Join(c23Tower(r, d), " ") + " / OK",
+			}
+			g.Case(lines...)
+		}
+	}
 	for i, n := 0, g.N(500, 12000); i < n; i++ {
 		var lines []string
 		for k, m := 0, r.Range(1, 6); k < m; k++ {
 			www := XS(Pick(r, c23WWW))
 			if r.Chance(55) {
-				lines = append(lines, "auth "+www+" "+strings.Join(c23Tree(r, r.Range(0, 6)), " "))
+				lines = append(lines, Pick(r, []string{"auth", "auth", "auth", "authc"})+" "+www+" "+strings.Join(c23Tree(r, r.Range(0, 6)), " "))
 				continue
 			}
 			var outs []string
@@ -231,6 +276,9 @@ func c23Gen(g *Gen) {
 					outs = append(outs, "OK")
 				case x < 60: // the fall-through case: a directly returned ValueError
 					outs = append(outs, "R:"+XS("ValueError")+":"+XS(Pick(r, []string{"Missing Authorization header", "Unknown bearer token", ""})))
+				case x < 70: // `return ctx, err`: a non-nil context together with an error of any kind
+					outs = append(outs, "C "+Pick(r, []string{"R:" + XS("ValueError") + ":x", "R:" + XS("PermissionError") + ":x", "W U7", "U0",
+						"F:" + XS("expired_credential") + ":x", "O", strings.Join(c23Tree(r, 2), " ")}))
 				default:
 					outs = append(outs, strings.Join(c23Tree(r, r.Range(0, 3)), " "))
 				}
@@ -270,8 +318,9 @@ func c23Gen(g *Gen) {
 			}
 			g.Case(lines...)
 		}
-		// every chain of length <= 4 over 6 outcomes
-		outs := []string{"OK", "R:" + XS("ValueError") + ":x", "R:" + XS("PermissionError") + ":x", "W R:" + XS("ValueError") + ":x", "W U3", "O"}
+		// every chain of length <= 4 over 8 outcomes
+		outs := []string{"OK", "R:" + XS("ValueError") + ":x", "R:" + XS("PermissionError") + ":x", "W R:" + XS("ValueError") + ":x", "W U3", "O",
+			"C R:" + XS("ValueError") + ":x", "C W U3"}
 		var rec func(prefix []string, depth int)
 		var batch []string
 		rec = func(prefix []string, depth int) {
@@ -407,16 +456,24 @@ func c23Exec(c *Case) {
 		www := string(wwwB)
 		h.VerifC23SetWWWAuthenticate(www)
 		switch f[0] {
-		case "auth":
+		case "auth", "authc":
 			err, rest, ok := c23Parse(f[2:])
 			if !ok || len(rest) != 0 {
 				c.Out(l, "err:bad-op")
 				continue
 			}
-			h.SetAuthenticate(func(*http.Request) (*vgirpc.AuthContext, error) { return nil, err })
+			var ctx *vgirpc.AuthContext
+			if f[0] == "authc" { // half-parsed identity handed back together with the error
+				ctx = &vgirpc.AuthContext{Domain: "t", Authenticated: true, Principal: "half-parsed"}
+			}
+			h.SetAuthenticate(func(*http.Request) (*vgirpc.AuthContext, error) { return ctx, err })
 			rec := serve()
+			if rec.Code == http.StatusUnsupportedMediaType {
+				c.Oracle("success-despite-error", fmt.Sprintf("%q: the authenticator returned an error but the request went on to the handler", l))
+			}
 			c23Oracle(c, l, err, www, rec)
-			c.Out("auth "+f[1]+" "+strings.Join(c23Normalise(f[2:]), " "), c23Observe(rec))
+			c.Stat(f[0])
+			c.Out(f[0]+" "+f[1]+" "+strings.Join(c23Normalise(f[2:]), " "), c23Observe(rec))
 		case "chain":
 			var groups [][]string
 			cur := []string{}
@@ -436,6 +493,11 @@ func c23Exec(c *Case) {
 				if len(gp) == 1 && gp[0] == "OK" {
 					ctxs[i] = &vgirpc.AuthContext{Domain: "t", Authenticated: true, Principal: strconv.Itoa(i)}
 					continue
+				}
+				if len(gp) > 1 && gp[0] == "C" { // (non-nil ctx, err)
+					ctxs[i] = &vgirpc.AuthContext{Domain: "t", Authenticated: true, Principal: "half-parsed-" + strconv.Itoa(i)}
+					gp = gp[1:]
+					c.Stat("chain-link-ctx+err")
 				}
 				e, rest, ok := c23Parse(gp)
 				if !ok || len(rest) != 0 {
@@ -514,6 +576,9 @@ func c23Exec(c *Case) {
 			want := "exhausted"
 			if wantStop < n {
 				want = map[bool]string{true: "ok:", false: "err:"}[wantOK] + strconv.Itoa(wantStop)
+			}
+			if err == nil && !wantOK {
+				c.Oracle("chain-returned-success-despite-error", fmt.Sprintf("%q: the chain returned success (%s) although the link it had to stop at returned an error", l, ret))
 			}
 			if ret != want {
 				c.Oracle("chain-wrong-result", fmt.Sprintf("%q: chain returned %s, expected %s", l, ret, want))
